@@ -87,8 +87,9 @@ type outcome struct {
 }
 
 type runner struct {
-	mu sync.Mutex
-	c  *child
+	mu   sync.Mutex
+	c    *child
+	prev string
 }
 
 // do sends one request; if the child dies it is restarted for the next one.
@@ -109,8 +110,16 @@ func (r *runner) do(req *request) (*outcome, error) {
 		return nil, fmt.Errorf("cannot write to child: %w", err)
 	}
 	stage := "start"
+	var trail []string
 	for {
 		line, err := r.c.out.ReadBytes('\n')
+		if os.Getenv("C03_DEBUG") != "" {
+			t := string(line)
+			if len(t) > 80 {
+				t = t[:80]
+			}
+			trail = append(trail, fmt.Sprintf("%q/%v", t, err))
+		}
 		if len(line) > 0 {
 			var res response
 			if e := json.Unmarshal(line, &res); e != nil {
@@ -138,7 +147,7 @@ func (r *runner) do(req *request) (*outcome, error) {
 				msg = msg[:600]
 			}
 			if d := os.Getenv("C03_DEBUG"); d != "" {
-				os.WriteFile(fmt.Sprintf("%s/crash-%d.txt", d, time.Now().UnixNano()), []byte(string(b)+"\n"+r.c.stderr.String()), 0o644)
+				os.WriteFile(fmt.Sprintf("%s/crash-%d.txt", d, time.Now().UnixNano()), []byte(string(b)+"\nTRAIL "+strings.Join(trail, " ; ")+"\nPREV "+r.prev+"\n"+r.c.stderr.String()), 0o644)
 			}
 			r.c = nil
 			return &outcome{crashed: true, stage: stage, panic: msg}, nil
